@@ -8,6 +8,7 @@ CONSTANTS
   RejectChoices = {TRUE,FALSE}
   MaxPairChoices = {0,1}
   Classes = {"A","N","W"}
+  PriorChoices = {"none"}
   PlainStrats = {}
   PairLevelOnly = FALSE
   Variant = "D101"
